@@ -51,8 +51,11 @@ where
         let io = Socket::new(domain, Type::DGRAM, Some(Protocol::UDP))
             .map_err(|e| SnmpError::SocketError(e.to_string()))?;
         if timeout_ns > 0 {
-            // Blocking mode
-            io.set_read_timeout(Some(Duration::from_nanos(timeout_ns)))
+            // Blocking mode.
+            // The kernel counts in microseconds and takes
+            // a zero timeval as "no timeout", so round up
+            let timeout = Duration::from_nanos(timeout_ns).max(Duration::from_micros(1));
+            io.set_read_timeout(Some(timeout))
                 .map_err(|e| SnmpError::SocketError(e.to_string()))?;
         } else {
             // Mark socket as non-blocking
